@@ -698,3 +698,36 @@ def body_without_docstring(fn: ast.FunctionDef) -> list[ast.stmt]:
             and isinstance(body[0].value.value, str):
         body = body[1:]
     return body
+
+
+def returned_expression(fn: ast.FunctionDef) -> Optional[ast.expr]:
+    """the one expression a straight-line function returns, its single-assignment locals looked through
+    (``return e``  /  ``v = e ; return v``  /  ``v: T = e ; return v``); None for anything else"""
+    body = [s for s in body_without_docstring(fn) if not isinstance(s, ast.Pass)]
+    env: dict[str, ast.expr] = {}
+    for st in body[:-1]:
+        if isinstance(st, ast.Assign) and len(st.targets) == 1 and isinstance(st.targets[0], ast.Name):
+            name, val = st.targets[0].id, st.value
+        elif isinstance(st, ast.AnnAssign) and isinstance(st.target, ast.Name) and st.value is not None:
+            name, val = st.target.id, st.value
+        else:
+            return None
+        if name in env or any(isinstance(x, ast.Name) and x.id in env for x in ast.walk(val)) and not isinstance(val, ast.Name):
+            return None
+        env[name] = env.get(val.id, val) if isinstance(val, ast.Name) else val
+    if not body or not isinstance(body[-1], ast.Return) or body[-1].value is None:
+        return None
+    v = body[-1].value
+    if isinstance(v, ast.Name) and v.id in env:
+        return env[v.id]
+    if any(isinstance(x, ast.Name) and x.id in env for x in ast.walk(v)):
+        return None
+    return v
+
+
+def getter_field(fn: ast.FunctionDef) -> Optional[str]:
+    """``f`` when the function returns exactly ``self.f``"""
+    e = returned_expression(fn)
+    if isinstance(e, ast.Attribute) and isinstance(e.value, ast.Name) and e.value.id == "self":
+        return e.attr
+    return None
